@@ -191,6 +191,22 @@ def r13_2(run):
     ok = gn is not None and cfg.dominates(gn, kn)
     run.ob("R13.2", loc(fi, graphs[0]), fi.short, "DuplicatingGraph construction dominates the kernel call", ok,
            "dominance" if ok else "kernel may run without a placeholder graph to restore")
+    rog = run.project.functions.get("mygrad._utils.duplicating_graph.DuplicatingGraph.restore_old_graph")
+    if rog is None:
+        raise AnalysisError("DuplicatingGraph.restore_old_graph not found")
+    cr = build_cfg(run, rog)
+    loops = [n for n, s in cr.stmt.items() if isinstance(s, ast.For) and calls_named(s, "reroute_ops_through")]
+    w = cr.all_paths_hit(ENTRY, set(loops), exits=(EXIT,)) if loops else [ENTRY, EXIT]
+    run.ob("R13.2", loc(rog, rog.node), rog.short, "restore_old_graph reaches the re-routing loop over all nodes on every path", w is None,
+           "graph-cut ENTRY->EXIT" if w is None else "the rollback can return without re-routing (e.g. a shortcut for view-less bases): earlier ops stay "
+           "attached to placeholders after a failed in-place update", path=cr.path_text(w) if w else None)
+    for lp in loops:
+        st = cr.stmt[lp]
+        okit = "self" in norm(st.iter)
+        rr = calls_named(st, "reroute_ops_through")
+        okargs = all(norm(kw(c, "target") or ast.Constant(0)).endswith(".tensor") and norm(kw(c, "source") or ast.Constant(0)).endswith(".placeholder") for c in rr)
+        run.ob("R13.2", loc(rog, st), rog.short, "rollback re-routes placeholder -> original for every node of the graph", okit and okargs,
+               "for node in <all nodes>: reroute_ops_through(target=node.tensor, source=node.placeholder)" if okit and okargs else "rollback direction / coverage wrong")
     # no write to `self`'s own array before the kernel: out= target must not be self.data in tracked mode
     tgt = kw(k, "out")
     ok = norm(tgt) not in ("self.data", "self.data.base")
